@@ -88,6 +88,20 @@ type c03Wire struct {
 	pathEnc  int  // spelling of a path value: 0 url.PathEscape, 1 every byte escaped, 2 the same in lower-case hex
 }
 
+// c03PadForm appends an undeclared field so that the urlencoded body is exactly n bytes long.
+func c03PadForm(b []byte, n int) []byte {
+	key := "zz-pad-zz="
+	if len(b) > 0 {
+		key = "&" + key
+	}
+	if len(b)+len(key) >= n {
+		return b
+	}
+	out := make([]byte, 0, n)
+	out = append(append(out, b...), key...)
+	return append(out, bytes.Repeat([]byte{'x'}, n-len(out))...)
+}
+
 func c03WireOf(sum int) c03Wire {
 	return c03Wire{enc: sum % 4, ctype: (sum / 4) % 4, chunked: (sum/16)%4 == 0, preparse: []int{0, 0, 0, 1, 2}[(sum/64)%5], pathEnc: []int{0, 0, 1, 2}[(sum/320)%4]}
 }
@@ -603,7 +617,13 @@ func c03Exec(in []string) (out []string) {
 			urlPath += "?" + c03Encode(pairs, wire.enc)
 		}
 	case "form":
-		body, ctype = c03BodyReader([]byte(c03Encode(pairs, wire.enc)), wire.chunked), "application/x-www-form-urlencoded"
+		fb := []byte(c03Encode(pairs, wire.enc))
+		if c03Sum(in...)%61 == 7 {
+			// a form body of exactly the size net/http (and the binder's own reading under the methods net/http
+			// does not read) still accepts: an undeclared field fills it up to 10 MiB — it binds like the short one
+			fb = c03PadForm(fb, 10<<20)
+		}
+		body, ctype = c03BodyReader(fb, wire.chunked), "application/x-www-form-urlencoded"
 	case "mform":
 		var buf bytes.Buffer
 		mw := multipart.NewWriter(&buf)
